@@ -87,10 +87,10 @@ class KSWINConfig(BaseWindowConfig):
         :type value: int
         :raises ValueError: Value error exception
         """
-        if value > self.min_num_instances:
+        if value > self.min_num_instances // 2:
             raise ValueError(
                 "num_test_instances value must be smaller or equal than "
-                "min_num_instances."
+                "half of min_num_instances."
             )
         if value < 1:
             raise ValueError("num_test_instances value must be greater than 0.")
